@@ -176,6 +176,7 @@ struct Global {
     // control-flow edges one library call may execute before it counts as "does not return" (raised for the giant inputs of C17,
     // where any linear-time algorithm legitimately needs billions of steps)
     unsigned long long step_budget = 30000000ull;
+    unsigned long long load_faults = 0;    // load violations recorded without ending the run
 };
 extern Global g;
 // coverage state lives in plain zero-initialised statics: the sancov constructors run before g's constructor
